@@ -56,39 +56,65 @@ def check(ctx):
 
 # ------------------------------------------------------------------ R1
 
+def _len_of_acc(v):
+    """len(<accumulated list>) -> its name, else None"""
+    if v[0] == "call" and v[1] == ("global", "len") and len(v[2]) == 1 and not v[3] and v[2][0][0] == "acc":
+        return v[2][0][1]
+    return None
+
+
 def csr_roles(m):
+    """(counter, roles, measured): the CSR lists by what is appended to them.  The running number of stored entries is either a
+    counter local (incremented next to the appends; `counter` is its name) or the length of one of the lists being filled
+    (`measured` is that list's name, counter is None)."""
     fl = m.flow
     counter = None
+    measured = None
     appended_names = set()
     for f in fl.facts:
         if f.kind == "append":
             v = simp(f.value)
-            for x in __import__("sa.valueflow", fromlist=["walk"]).walk(v):
+            for x in walk_(v):
                 if isinstance(x, tuple) and x and x[0] == "carried":
                     appended_names.add(x[1])
     for f in fl.facts:
         if f.kind == "augassign" and f.op == "Add" and f.loops and f.target in appended_names:
             counter = f.target
     roles = {}
-    for f in fl.facts:
-        if f.kind != "append":
-            continue
-        v = simp(f.value)
-        if contains_carried(v, counter):
-            roles.setdefault("rows", []).append(f)
-    rows_names = {f.target for f in roles.get("rows", [])}
     inc_loops = None
+    if counter is not None:
+        for f in fl.facts:
+            if f.kind == "append" and contains_carried(simp(f.value), counter):
+                roles.setdefault("rows", []).append(f)
+        for f in fl.facts:
+            if f.kind == "augassign" and f.target == counter:
+                inc_loops = tuple(l.id for l in f.loops)
+    else:
+        # no counter: the row pointers are `len(<list>)` of a list that is appended to inside the loops
+        lens = {}
+        for f in fl.facts:
+            if f.kind == "append":
+                nm = _len_of_acc(simp(f.value))
+                if nm is not None and nm != f.target:
+                    lens.setdefault(nm, []).append(f)
+        cands = [nm for nm in lens if any(g.kind == "append" and g.target == nm and g.loops for g in fl.facts)]
+        if len(cands) == 1:
+            measured = cands[0]
+            roles["rows"] = lens[measured]
+            sites = {tuple(l.id for l in g.loops) for g in fl.facts if g.kind == "append" and g.target == measured}
+            if len(sites) == 1:
+                inc_loops = next(iter(sites))
+    rows_names = {f.target for f in roles.get("rows", [])}
+
+    def is_position(v):
+        if v[0] == "elem" and v[1][0] == "sub" and v[1][1] == m.JAC and v[1][2][0] == "slice":
+            return False        # an element of a slice of the Jacobian table is an entry, not a position
+        return v[0] in ("elem", "item", "idx") or (v[0] == "call" and v[1] == ("global", "int"))
     for f in fl.facts:
-        if f.kind == "augassign" and f.target == counter:
-            inc_loops = tuple(l.id for l in f.loops)
-    for f in fl.facts:
-        if f.kind == "append" and f.target not in rows_names and f.loops and tuple(l.id for l in f.loops) == inc_loops:
+        if f.kind == "append" and f.target not in rows_names and f.loops and inc_loops is not None and tuple(l.id for l in f.loops) == inc_loops:
             v = simp(f.value)
-            if v[0] in ("elem", "item") or (v[0] == "call" and v[1] == ("global", "int")):
-                roles.setdefault("cols", []).append(f)
-            else:
-                roles.setdefault("vals", []).append(f)
-    return counter, roles
+            roles.setdefault("cols" if is_position(v) else "vals", []).append(f)
+    return counter, roles, measured
 
 
 def contains_carried(v, name):
@@ -99,8 +125,8 @@ def contains_carried(v, name):
 def _r1(ctx, m):
     fl = m.flow
     W = (FILE, m.func.lineno)
-    counter, roles = csr_roles(m)
-    if counter is None or not all(k in roles for k in ("rows", "cols", "vals")):
+    counter, roles, measured = csr_roles(m)
+    if (counter is None and measured is None) or not all(k in roles for k in ("rows", "cols", "vals")):
         # Not the scan `for row: for col: if entry != sentinel`.  One other construction is decidable: the stored positions are
         # taken from a SET filled during assembly.  Then the pattern is right only if every store into the Jacobian table has a
         # sibling `<set>.add(<same index>)` in the same loops, under the same guards.
@@ -130,20 +156,39 @@ def _r1(ctx, m):
         return
     rows, cols, vals = roles["rows"], roles["cols"], roles["vals"]
     names = {k: sorted({f.target for f in v}) for k, v in roles.items()}
-    # (a) counter starts at 0, assigned once outside loops
-    ini = fl.assigns.get(counter, [])
-    ctx.check(len(ini) == 1 and ini[0][0] == ("const", 0) and not ini[0][1] and not ini[0][2], "R1", "nnz-init", (FILE, ini[0][3] if ini else m.func.lineno),
-              f"`{counter}` is initialised once to 0 before the loops", expected=f"{counter} = 0", found="; ".join(show(x[0]) for x in ini))
-    incs = [f for f in fl.facts if f.kind == "augassign" and f.target == counter]
-    ctx.check(len(incs) == 1 and incs[0].op == "Add" and incs[0].value == ("const", 1), "R1", "nnz-increment", (FILE, incs[0].line if incs else m.func.lineno),
-              f"`{counter}` is only ever incremented by 1, at one site", found="; ".join(f"{f.op} {show(f.value)} @{f.line}" for f in incs))
+    # (a) the running count of stored entries: a counter that starts at 0 and is incremented by 1 next to the appends, or the length
+    #     of the value / column list itself
+    incs = [f for f in fl.facts if f.kind == "augassign" and f.target == counter] if counter is not None else []
+    if counter is not None:
+        ini = fl.assigns.get(counter, [])
+        ctx.check(len(ini) == 1 and ini[0][0] == ("const", 0) and not ini[0][1] and not ini[0][2], "R1", "nnz-init", (FILE, ini[0][3] if ini else m.func.lineno),
+                  f"`{counter}` is initialised once to 0 before the loops", expected=f"{counter} = 0", found="; ".join(show(x[0]) for x in ini))
+        ctx.check(len(incs) == 1 and incs[0].op == "Add" and incs[0].value == ("const", 1), "R1", "nnz-increment", (FILE, incs[0].line if incs else m.func.lineno),
+                  f"`{counter}` is only ever incremented by 1, at one site", found="; ".join(f"{f.op} {show(f.value)} @{f.line}" for f in incs))
+    else:
+        own = measured in names.get("vals", []) + names.get("cols", [])
+        ctx.check(own, "R1", "nnz-by-length", W, f"the number of stored entries is read as len({measured}), the list that receives one element per stored entry",
+                  found=f"len({measured}); value list {names.get('vals')}, column list {names.get('cols')}")
     inc = incs[0] if incs else None
     # (b) loops
-    if inc is None or len(cols) != 1 or len(vals) != 1:
+    if (counter is not None and inc is None) or len(cols) != 1 or len(vals) != 1:
         ctx.bad("R1", "csr-sites", W, f"expected one cols.append, one vals.append and one increment; found {len(cols)}, {len(vals)}, {len(incs)}")
         return
-    two_range = len(inc.loops) == 2 and all(l.iter[0] == "call" and l.iter[1] == ("global", "range") for l in inc.loops)
-    if not two_range:
+    c, v = cols[0], vals[0]
+    together = [c, v] + ([inc] if inc is not None else [])
+    scan = v.loops
+    # the scan: `for row in range(n): for col in range(n): entry = table[row*n + col]`  or
+    #           `for row in range(n): for col, entry in enumerate(table[row*n : (row+1)*n])`
+    form = None
+    if len(scan) == 2:
+        it0, it1 = simp(scan[0].iter), simp(scan[1].iter)
+        if it0[0] == "call" and it0[1] == ("global", "range"):
+            if it1[0] == "call" and it1[1] == ("global", "range"):
+                form = "range"
+            elif it1[0] == "call" and it1[1] == ("global", "enumerate") and len(it1[2]) == 1 and not it1[3] and it1[2][0][0] == "sub" \
+                    and it1[2][0][1] == m.JAC and it1[2][0][2][0] == "slice":
+                form = "rowslice"
+    if form is None:
         # restructured builder: the one obligation that is independent of the loop shape --
         # a row pointer must be emitted for every row, whatever the row contains
         hit = False
@@ -170,12 +215,28 @@ def _r1(ctx, m):
         if not hit:
             ctx.unrec("R1", "csr-construction", W, "CSR builder is not the row loop x column loop form; cannot decide well-formedness")
         return
-    rowloop, colloop = inc.loops
-    for nm, lp in (("row", rowloop), ("col", colloop)):
-        it = simp(lp.iter)
-        ok = it[0] == "call" and it[1] == ("global", "range") and len(it[2]) == 1 and not it[3] and m.is_n_eqns(it[2][0])
-        ctx.check(ok, "R1", f"{nm}-loop", (FILE, lp.line), f"{nm} loop is `for {lp.target} in range(n_eqns)` (ascending, complete)",
+    rowloop, colloop = scan
+    rowvar = ("elem", simp(rowloop.iter), rowloop.id)
+    it = simp(rowloop.iter)
+    ok = len(it[2]) == 1 and not it[3] and m.is_n_eqns(it[2][0])
+    ctx.check(ok, "R1", "row-loop", (FILE, rowloop.line), f"row loop is `for {rowloop.target} in range(n_eqns)` (ascending, complete)",
+              expected="range(n_eqns)", found=show(it)[:100])
+    it = simp(colloop.iter)
+    if form == "range":
+        ok = len(it[2]) == 1 and not it[3] and m.is_n_eqns(it[2][0])
+        ctx.check(ok, "R1", "col-loop", (FILE, colloop.line), f"col loop is `for {colloop.target} in range(n_eqns)` (ascending, complete)",
                   expected="range(n_eqns)", found=show(it)[:100])
+        colvar = ("elem", it, colloop.id)
+        entry = None            # from the guard, below
+    else:
+        from ..odemodel import row_slice
+        seq = it[2][0]
+        ok = row_slice(m, seq[2], rowvar)
+        ctx.check(bool(ok), "R1", "col-loop", (FILE, colloop.line),
+                  f"col loop enumerates the row's slice jacrhs[row*n_eqns : (row+1)*n_eqns] (ascending, complete; position in the slice = column)",
+                  expected="enumerate(jacrhs[row*n_eqns : (row+1)*n_eqns])", found=show(it)[:120])
+        colvar = ("idx", seq, colloop.id)
+        entry = ("elem", seq, colloop.id)
     # (c) row pointer appended before the column loop, unguarded, once per row
     inrow = [f for f in rows if tuple(l.id for l in f.loops) == (rowloop.id,)]
     tail = [f for f in rows if not f.loops]
@@ -189,37 +250,46 @@ def _r1(ctx, m):
               found=f"{len(inrow)} in-row appends" + (f" (guards: {[show(g) for g, _ in inrow[0].guards]}, after column loop: {inrow[0].seq > first_col_fact})" if inrow else "")
               + (f", {len(others)} appends elsewhere (lines {[f.line for f in others]})" if others else ""))
     ok = len(tail) == 1 and not tail[0].guards and tail[0].seq > last_loop_fact
+    if ok and counter is None:
+        # len(<list>) is the final count only if it is evaluated after the loops
+        ok = _evaluated_after(fl, simp(tail[0].value), tail[0].seq, last_loop_fact)
     ctx.check(ok, "R1", "rowptr-final", (FILE, tail[0].line if tail else rowloop.line),
               "one final rows.append(nnz) after the loops (row pointers end at the non-zero count)",
               found=f"{len(tail)} appends after the loops")
     # (d) single guard entry != sentinel shared by cols / vals / increment
-    c, v = cols[0], vals[0]
-    same_loops = all(tuple(l.id for l in f.loops) == (rowloop.id, colloop.id) for f in (c, v, inc))
-    g = [tuple((simp(x), p) for x, p in f.guards) for f in (c, v, inc)]
+    same_loops = all(tuple(l.id for l in f.loops) == (rowloop.id, colloop.id) for f in together)
+    g = [tuple((simp(x), p) for x, p in f.guards) for f in together]
     slot_idx = None
     guard_ok = False
-    if g[0] == g[1] == g[2] and len(g[0]) == 1:
+    if all(x == g[0] for x in g) and len(g[0]) == 1:
         gx, pol = g[0][0]
-        b = match(("cmp", (V("op"),), (("sub", m.JAC, V("i")), V("lit"))), gx)
+        b = match(("cmp", (V("op"),), (V("e"), V("lit"))), gx)
         if b and ((b["op"] == "NotEq" and pol) or (b["op"] == "Eq" and not pol)) and b["lit"][0] == "const":
-            slot_idx = b["i"]
-            ctx.stats["csr_sentinel"] = b["lit"][1]
-            guard_ok = True
+            if form == "range" and b["e"][0] == "sub" and b["e"][1] == m.JAC:
+                slot_idx = b["e"][2]
+                entry = b["e"]
+                guard_ok = True
+            elif form == "rowslice" and b["e"] == entry:
+                guard_ok = True
+            if guard_ok:
+                ctx.stats["csr_sentinel"] = b["lit"][1]
     ctx.check(same_loops and guard_ok, "R1", "single-guard", (FILE, c.line),
               "cols.append, vals.append and the increment sit together under the single guard `entry != sentinel`",
               expected="if elem != '0.0': cols.append(col); vals.append(elem); nnz += 1",
               found="; ".join("&".join(("" if p else "not ") + show(x)[:60] for x, p in gg) or "<unguarded>" for gg in g))
-    if slot_idx is not None:
-        d = m.decode_flat(slot_idx)
-        ok = bool(d) and d[0] == ("elem", simp(rowloop.iter), rowloop.id) and d[1] == ("elem", simp(colloop.iter), colloop.id)
-        ctx.check(ok, "R1", "entry-index", (FILE, c.line), "the tested entry is jacrhs[row*n_eqns + col] of the two loop variables",
-                  found=show(slot_idx)[:120])
-        ctx.check(simp(c.value) == ("elem", simp(colloop.iter), colloop.id), "R1", "cols-value", (FILE, c.line),
+    if guard_ok:
+        if form == "range":
+            d = m.decode_flat(slot_idx)
+            ok = bool(d) and d[0] == rowvar and d[1] == colvar
+            ctx.check(ok, "R1", "entry-index", (FILE, c.line), "the tested entry is jacrhs[row*n_eqns + col] of the two loop variables",
+                      found=show(slot_idx)[:120])
+        else:
+            ctx.ok("R1", "entry-index", (FILE, c.line), "the tested entry is the element the column loop enumerates: jacrhs[row*n_eqns + col]")
+        ctx.check(simp(c.value) == colvar, "R1", "cols-value", (FILE, c.line),
                   "the column list receives the column loop variable", found=show(simp(c.value))[:80])
         lw = lower(v.value)
         hv = list(lw.holes.values())
-        slot = ("sub", m.JAC, slot_idx)
-        ok = len(hv) == 1 and hv[0] in (slot, ("fmt", slot, None, -1)) and lw.text.strip() == next(iter(lw.holes))
+        ok = len(hv) == 1 and hv[0] in (entry, ("fmt", entry, None, -1)) and lw.text.strip() == next(iter(lw.holes))
         ctx.check(ok, "R1", "vals-value", (FILE, v.line), "the value list receives that same entry, unchanged", found=lw.text)
     # (f) nothing else touches the lists
     allnames = set(sum(names.values(), []))
@@ -230,6 +300,15 @@ def _r1(ctx, m):
         ini = [f for f in fl.facts if f.kind == "init" and f.target == nm]
         ctx.check(len(ini) == 1 and ini[0].value == ("list", ()) and not ini[0].loops, "R1", f"init:{nm}", (FILE, ini[0].line if ini else m.func.lineno),
                   f"`{nm}` starts as the empty list, once", found="; ".join(show(f.value) for f in ini))
+
+
+def _evaluated_after(fl, v, use_seq, after_seq):
+    """`v` (a len(<list>) expression, read by the fact numbered use_seq) was evaluated after the fact numbered after_seq: either it
+    is written at the point of use, or it was bound to a local by an assignment that itself comes after."""
+    binds = [seq for nm, lst in fl.assigns.items() for val, loops, guards, line, seq in lst if simp(val) == v]
+    if not binds:
+        return use_seq > after_seq
+    return all(sq > after_seq for sq in binds) and use_seq > after_seq
 
 
 # ------------------------------------------------------------------ R2 + R5
@@ -585,6 +664,8 @@ def _split_args(code, i):
 
 T = FILE
 MUTANTS = [
+    {"name": 'rowslice-one-column-short', "file": T, "old": '        nnz = 0\n\n        for row in range(n_eqns):\n            spjacrptr.append(nnz)\n            for col in range(n_eqns):\n                elem = jacrhs[row * n_eqns + col]\n                if elem != "0.0":\n                    spjaccval.append(col)\n                    spjacdata.append(f"{elem}")\n                    nnz += 1\n        spjacrptr.append(nnz)\n',
+     "new": '        for row in range(n_eqns):\n            spjacrptr.append(len(spjacdata))\n            for col, elem in enumerate(jacrhs[row * n_eqns : (row + 1) * n_eqns - 1]):\n                if elem == "0.0":\n                    continue\n                spjaccval.append(col)\n                spjacdata.append(elem)\n        nnz = len(spjacdata)\n        spjacrptr.append(nnz)\n', "rules": ['R1']},
     {"name": "cusparse-kernel-drops-system-offset", "file": "naunet/templates/cvode/src/naunet_jac.cpp.j2", "old": "data[jistart + ", "new": "data[", "rules": ["R6"]},
     {"name": "rowptr-after-columns", "file": T, "old": "            spjacrptr.append(nnz)\n            for col in range(n_eqns):\n                elem = jacrhs[row * n_eqns + col]\n                if elem != \"0.0\":\n                    spjaccval.append(col)\n                    spjacdata.append(f\"{elem}\")\n                    nnz += 1\n",
      "new": "            for col in range(n_eqns):\n                elem = jacrhs[row * n_eqns + col]\n                if elem != \"0.0\":\n                    spjaccval.append(col)\n                    spjacdata.append(f\"{elem}\")\n                    nnz += 1\n            spjacrptr.append(nnz)\n", "rules": ["R1"]},
@@ -607,6 +688,8 @@ MUTANTS = [
     {"name": "nequations-macro", "file": MACROS, "old": "#define NEQUATIONS (NSPECIES + THERMAL)", "new": "#define NEQUATIONS (NSPECIES)", "rules": ["R4"]},
 ]
 BENIGN = [
+    {"name": "csr-rowslice-enumerate-count-by-len", "file": T, "old": '        nnz = 0\n\n        for row in range(n_eqns):\n            spjacrptr.append(nnz)\n            for col in range(n_eqns):\n                elem = jacrhs[row * n_eqns + col]\n                if elem != "0.0":\n                    spjaccval.append(col)\n                    spjacdata.append(f"{elem}")\n                    nnz += 1\n        spjacrptr.append(nnz)\n',
+     "new": '        for row in range(n_eqns):\n            spjacrptr.append(len(spjacdata))\n            for col, elem in enumerate(jacrhs[row * n_eqns + 0 : (row + 1) * n_eqns]):\n                if elem == "0.0":\n                    continue\n                spjaccval.append(col)\n                spjacdata.append(elem)\n        nnz = len(spjacdata)\n        spjacrptr.append(nnz)\n'},
     {"name": "initjac-join-without-map", "file": JAC, "old": " | map('string') | join(", "new": " | join(", "count": 2},
     {"name": "kernel-replace-in-set-variable", "file": JAC, "old": "data[jistart + {{loop.index0}}] = {{ data | replace(\"y[IDX\", \"y_cur[IDX\") | stmwrap(80, 12) }};",
      "new": "{% set cur = data | replace(\"y[IDX\", \"y_cur[IDX\") -%}data[jistart + {{loop.index0}}] = {{ cur | stmwrap(80, 12) }};"},
